@@ -19,13 +19,14 @@ const lbsPkg = modPath + "/benchstat"
 const istatsPkg = modPath + "/internal/stats"
 
 func checkC17(c *Ctx) {
-	c.Rule("C17/R1", "Sort resolves to sort.SliceStable (rows with equal keys keep first-appearance order), and Reverse(order)(t,i,j) is order(t,j,i), a strict order again")
+	c.Rule("C17/R1", "Sort resolves to sort.SliceStable (rows with equal keys keep first-appearance order), and Reverse(order)(t,i,j) is order(t,j,i), a strict order again; ByDelta(t,i,j) is |PctDelta_i|·Change_i < |PctDelta_j|·Change_j (exact evaluation at seven sample row pairs)")
 	c.Rule("C17/R2", "outlier fence: quartiles are Percentile(0.25)/(0.75) of the raw values; fence q1-1.5(q3-q1) .. q3+1.5(q3-q1) computed unconditionally; a value is kept iff lo<=v && v<=hi, iterating the raw slice in order; min/max/mean are taken from the kept slice")
 	c.Rule("C17/R3", "row table (DESIGN Appendix A5): test error -> '~' with a note and no delta; p<alpha (strict) -> delta; equal means -> 0.00%; else (new/old-1)*100 with %+.2f%%; improvement iff (pct<0)==(metric!=speed); p/n note iff no other note and a test ran, with the retained sample sizes")
 	c.Rule("C17/R4", "the geomean takes a mean only when it is non-zero; configs/groups/benchmarks/units grow only through the append-if-absent helper in the metric-creation path")
 	c.Rule("C17/R5", "map order: every map range in the package is order-independent; metricOf's first-match pick over the suffix table is allow-listed with the side obligation that at most one entry can match")
 
 	c.Rule("C17/R6", "quartile interpolation (R8): with k the integer part of 1/3 + p(N+1/3), Percentile returns x[0] for k <= 0, x[N-1] for k >= N and x[k-1] + frac (x[k] - x[k-1]) otherwise — evaluated for N = 5 and every k from -1 to 6 by answering the clamp conditions from (k, N)")
+	c.Rule("C17/R8", "the delta tests see the retained values only: nothing on the way from TTest/UTest (including methods of adapter types they hand to the statistics package) reads Metrics.Values")
 	c.Rule("C17/R7", "the geometric mean behind the geomean row accumulates in the log domain (same rule as C12/R7): no running product of raw means")
 	p := mustLoad(c, loadOpts{}, "./benchstat", "./internal/stats", "./storage/benchfmt")
 	c17Sort(c, p)
@@ -35,6 +36,8 @@ func checkC17(c *Ctx) {
 	c17Maps(c, p)
 	c17Percentile(c, p)
 	c12GeoMean(c, p, "C17/R7")
+	c17ByDelta(c, p)
+	c17Retained(c, p)
 }
 
 func c17Sort(c *Ctx, p *Prog) {
@@ -86,6 +89,175 @@ func c17Sort(c *Ctx, p *Prog) {
 	}
 	c.Check(okRev, R, "Reverse:exchanges-arguments", p.pos(rev.Pos()), "Reverse(order)(t,i,j) is order(t,j,i)",
 		"Reverse does not yield the order with its arguments exchanged ("+detail+"): the result is not a strict order, so under the stable sort rows with equal keys (all '~' rows under ByDelta, every row of a single-configuration table) come out in reversed instead of first-appearance order")
+}
+
+// c17ByDelta: ByDelta(t,i,j) is |PctDelta_i|·Change_i < |PctDelta_j|·Change_j — evaluated exactly at sample rows, with
+// every branch of the function answered at the sample.
+func c17ByDelta(c *Ctx, p *Prog) {
+	const R = "C17/R1"
+	fn := p.Fn("benchstat", "ByDelta")
+	pctF := p.Field("benchstat", "Row", "PctDelta")
+	chgF := p.Field("benchstat", "Row", "Change")
+	if fn == nil || pctF == nil || chgF == nil || len(fn.Params) != 3 {
+		c.Undecided(R, "anchor:benchstat.ByDelta", "", "ByDelta or Row.PctDelta/Change not found")
+		return
+	}
+	site := p.pos(fn.Pos())
+	pi, pj := "param:"+fn.Params[1].Name(), "param:"+fn.Params[2].Name()
+	leaf := func(s *Sym) string {
+		which := func() string {
+			str := s.String()
+			hi, hj := strings.Contains(str, pi+")") || strings.Contains(str, pi+"]") || strings.Contains(str, pi+","), strings.Contains(str, pj+")") || strings.Contains(str, pj+"]") || strings.Contains(str, pj+",")
+			switch {
+			case hi && !hj:
+				return "i"
+			case hj && !hi:
+				return "j"
+			}
+			return ""
+		}
+		switch {
+		case s.IsFieldLoad(pctF):
+			if w := which(); w != "" {
+				return "p" + w
+			}
+		case s.IsFieldLoad(chgF):
+			if w := which(); w != "" {
+				return "c" + w
+			}
+		}
+		return ""
+	}
+	pts := []map[string]*big.Rat{
+		{"pi": rat(5, 1), "ci": rat(1, 1), "pj": rat(3, 1), "cj": rat(1, 1)},
+		{"pi": rat(5, 1), "ci": rat(-1, 1), "pj": rat(3, 1), "cj": rat(1, 1)},
+		{"pi": rat(-4, 1), "ci": rat(-1, 1), "pj": rat(-2, 1), "cj": rat(1, 1)},
+		{"pi": rat(2, 1), "ci": rat(0, 1), "pj": rat(-1, 1), "cj": rat(-1, 1)},
+		{"pi": rat(-7, 1), "ci": rat(1, 1), "pj": rat(6, 1), "cj": rat(1, 1)},
+		{"pi": rat(3, 1), "ci": rat(1, 1), "pj": rat(3, 1), "cj": rat(1, 1)},
+		{"pi": rat(-3, 2), "ci": rat(1, 1), "pj": rat(9, 4), "cj": rat(-1, 1)},
+	}
+	n := 0
+	for k, pt := range pts {
+		env := &ratEnv{leaves: map[string]*big.Rat{}, salt: k + 1, leafOf: leaf, named: pt}
+		evalBool := func(s *Sym) (res bool, ok bool) {
+			defer func() {
+				if r := recover(); r != nil {
+					if _, isE := r.(e7Err); isE {
+						res, ok = false, false
+						return
+					}
+					panic(r)
+				}
+			}()
+			if s.Op == "const" && s.Const != nil && s.Const.Kind() == constant.Bool {
+				return constant.BoolVal(s.Const), true
+			}
+			if s.Op != "binop" {
+				return false, false
+			}
+			a, b := ufEval(env, s.Args[0]), ufEval(env, s.Args[1])
+			switch s.Tok {
+			case token.LSS:
+				return a.Cmp(b) < 0, true
+			case token.LEQ:
+				return a.Cmp(b) <= 0, true
+			case token.GTR:
+				return a.Cmp(b) > 0, true
+			case token.GEQ:
+				return a.Cmp(b) >= 0, true
+			case token.EQL:
+				return a.Cmp(b) == 0, true
+			case token.NEQ:
+				return a.Cmp(b) != 0, true
+			}
+			return false, false
+		}
+		outs, why := e6Enumerate(func() *e6Interp {
+			return &e6Interp{PureCall: func(f *types.Func) bool { return true }, Decide: evalBool, MaxAtoms: 16, Inline: func(f *ssa.Function) bool {
+				return f.Pkg == fn.Pkg && f.Blocks != nil && len(naturalLoops(f)) == 0
+			}}
+		}, fn.Blocks[0], nil, nil, 64)
+		key := fmt.Sprintf("ByDelta[pct_i=%s change_i=%s pct_j=%s change_j=%s]", pt["pi"].RatString(), pt["ci"].RatString(), pt["pj"].RatString(), pt["cj"].RatString())
+		if why != "" || len(outs) != 1 || outs[0].Term != "return" || len(outs[0].Results) != 1 {
+			c.Undecided(R, key, site, fmt.Sprintf("the order is not decided at this sample (%s, %d paths)", why, len(outs)))
+			continue
+		}
+		got, ok := evalBool(outs[0].Results[0])
+		if !ok {
+			c.Undecided(R, key, site, "cannot evaluate the result "+truncate(outs[0].Results[0].String(), 160))
+			continue
+		}
+		n++
+		want := rMul(rAbs(pt["pi"]), pt["ci"]).Cmp(rMul(rAbs(pt["pj"]), pt["cj"])) < 0
+		c.Check(got == want, R, key, site, fmt.Sprintf("before=%v", got), fmt.Sprintf("ByDelta says row i sorts before row j = %v; with the documented key |delta|·change (improvements first, the order reversed when larger is better) it is %v", got, want))
+	}
+	c.Floor(R, "ByDelta sample rows", n, 7)
+}
+
+// c17Retained (C17/R8): the delta tests see the retained values only.
+func c17Retained(c *Ctx, p *Prog) {
+	const R = "C17/R8"
+	valuesF := p.Field("benchstat", "Metrics", "Values")
+	rvaluesF := p.Field("benchstat", "Metrics", "RValues")
+	var roots []*ssa.Function
+	for _, name := range []string{"TTest", "UTest"} {
+		if fn := p.Fn("benchstat", name); fn != nil {
+			roots = append(roots, fn)
+		}
+	}
+	if valuesF == nil || rvaluesF == nil || len(roots) != 2 {
+		c.Undecided(R, "anchor:TTest/UTest", "", "delta tests or Metrics fields not found")
+		return
+	}
+	// adapter types handed to the statistics package as interfaces bring their methods along
+	seenT := map[types.Type]bool{}
+	fns := staticReach(roots, modPath+"/benchstat")
+	for i := 0; i < len(fns); i++ {
+		eachInstr(fns[i], func(_ *ssa.BasicBlock, in ssa.Instruction) {
+			mi, ok := in.(*ssa.MakeInterface)
+			if !ok || seenT[mi.X.Type()] {
+				return
+			}
+			seenT[mi.X.Type()] = true
+			ms := p.SSA.MethodSets.MethodSet(mi.X.Type())
+			for k := 0; k < ms.Len(); k++ {
+				if m := p.SSA.MethodValue(ms.At(k)); m != nil && m.Pkg != nil && m.Pkg.Pkg.Path() == modPath+"/benchstat" {
+					for _, g := range staticReach([]*ssa.Function{m}, modPath+"/benchstat") {
+						dup := false
+						for _, h := range fns {
+							dup = dup || h == g
+						}
+						if !dup {
+							fns = append(fns, g)
+						}
+					}
+				}
+			}
+		})
+	}
+	nR := 0
+	for _, fn := range fns {
+		k := 0
+		eachInstr(fn, func(_ *ssa.BasicBlock, in ssa.Instruction) {
+			var f *types.Var
+			switch x := in.(type) {
+			case *ssa.FieldAddr:
+				f, _ = fieldOfAddr(x)
+			case *ssa.Field:
+				f, _ = fieldOfVal(x)
+			}
+			switch f {
+			case rvaluesF:
+				nR++
+			case valuesF:
+				k++
+				c.Bad(R, fmt.Sprintf("%s:reads-Values#%d", fnName(fn), k), p.pos(in.Pos()), "a delta test reads Metrics.Values, the unfiltered measurements: the tests are documented to run on the values retained after outlier removal (the sample sizes shown next to p are the retained ones), so an outlier that was dropped from the mean still moves the p-value or the degrees of freedom")
+			}
+		})
+	}
+	c.OK(R, "delta-tests:retained-only", "", fmt.Sprintf("%d functions on the way from TTest/UTest, %d reads of RValues, none of Values", len(fns), nR))
+	c.Floor(R, "reads of the retained values in the delta tests", nR, 3)
 }
 
 func c17Fence(c *Ctx, p *Prog) {
